@@ -507,6 +507,48 @@ func corpus() [][]Op {
 	}
 }
 
+// windowCorpus: every combination of offset and limit from the edges of the
+// statement's range (up to 2^63-1) and of the store (len-1, len, len+1),
+// ascending and descending, with and without a class, on three entries.
+func windowCorpus() [][]Op {
+	setup := []Op{{Op: "add", K: h("a"), V: h("1")}, {Op: "addclass", K: h("b"), C: h("c"), V: h("2")},
+		{Op: "addclass", K: h("c"), C: h("c"), V: h("3")}}
+	edges := []uint64{0, 1, 2, 3, 4, 1 << 62, 1<<63 - 2, 1<<63 - 1}
+	var out [][]Op
+	for _, off := range edges {
+		ops := append([]Op{}, setup...)
+		for _, n := range edges {
+			ops = append(ops, Op{Op: "walkpartial", Off: off, N: n, Desc: false},
+				Op{Op: "walkpartial", Off: off, N: n, Desc: true},
+				Op{Op: "walkpartialclass", C: h("c"), Off: off, N: n, Desc: n%2 == 0})
+		}
+		out = append(out, ops)
+	}
+	return out
+}
+
+// overflowCorpus: offsets and limits of 2^63 and more. They are outside the
+// statement (and the backends differ there: the memory backend's offset+n
+// wraps around and its slice expression may panic, sqlite refuses the
+// literal); the observations are only compared with the models.
+func overflowCorpus() [][]Op {
+	setup := []Op{{Op: "add", K: h("a"), V: h("1")}, {Op: "add", K: h("b"), V: h("2")}, {Op: "add", K: h("c"), V: h("3")}}
+	small := []uint64{0, 1, 2, 3, 4, 1 << 62, 1<<63 - 1}
+	big := []uint64{1 << 63, 1<<63 + 1, 1<<64 - 3, 1<<64 - 2, 1<<64 - 1}
+	var out [][]Op
+	for _, b := range big {
+		ops := append([]Op{}, setup...)
+		for _, x := range small {
+			ops = append(ops, Op{Op: "walkpartial", Off: x, N: b}, Op{Op: "walkpartial", Off: b, N: x, Desc: true})
+		}
+		for _, b2 := range big {
+			ops = append(ops, Op{Op: "walkpartial", Off: b, N: b2}, Op{Op: "walkpartialclass", Off: b2, N: b})
+		}
+		out = append(out, ops)
+	}
+	return out
+}
+
 func genHistory(r *hx.Rng, maxLen int) []Op {
 	n := 1 + r.Intn(maxLen)
 	ops := make([]Op, n)
@@ -567,7 +609,7 @@ func main() {
 	i := 0
 	emit := func(stream string, ops []Op) {
 		c := Case{I: i, Stream: stream, Ops: ops, HK: hashTable(ops), Obs: st.runAll(ops)}
-		if !sameRes(c.Obs["mo"], c.Obs["so"]) || !sameRes(c.Obs["mu"], c.Obs["su"]) {
+		if stream != "overflow" && (!sameRes(c.Obs["mo"], c.Obs["so"]) || !sameRes(c.Obs["mu"], c.Obs["su"])) {
 			c.Min = st.shrink(ops)
 			c.MinObs = st.runAll(c.Min)
 		}
@@ -576,6 +618,12 @@ func main() {
 	}
 	for _, ops := range corpus() {
 		emit("corpus", ops)
+	}
+	for _, ops := range windowCorpus() {
+		emit("window", ops)
+	}
+	for _, ops := range overflowCorpus() {
+		emit("overflow", ops)
 	}
 	for j := 0; j < *n; j++ {
 		if j%8 == 7 {
